@@ -11,6 +11,9 @@ def main(tier, prop='C03'):
     st = 'q' if quick else 't'
     for w in WRAPS[tier]:
         c.run_family('plain', 'c03.py', 'pack', args=['--prop=' + prop, '--set=' + st, '--wrap=' + w], per_case_timeout=60, chunk=2 if quick else 4, nsamples=1)
+    # every operator alone in a model of its own (need flags and helper functions are per model, a pack would mask them)
+    for w in (['w1', 'w3'] if quick else WRAPS[tier]):
+        c.run_family('plain', 'c03.py', 'shape', hi=73, args=['--prop=' + prop, '--set=' + st, '--wrap=' + w], per_case_timeout=30, chunk=6, nsamples=1)
     if not quick:
         # the packing must mask nothing: the depth-1/2 part of w1 again, one shape per model
         c.run_family('plain', 'c03.py', 'shape', hi=2500, args=['--prop=' + prop, '--set=' + st, '--wrap=w1'], per_case_timeout=30, chunk=40, nsamples=1)
@@ -18,7 +21,7 @@ def main(tier, prop='C03'):
         rule='every expression tree of depth <= 2 over the full supported MathML operator set (every parent x operand position x child operator, plus '
              'constants and cn forms) and depth-3 chains over the precedence-sensitive operators, in wrappers w1 (computed constant), w2 (algebraic, reads a '
              'state and the VOI), w3 (dx/dt = E mentioning x), w4 (implicit NLA form), w5 (operands a and d live in another component in millimetres / kilometres and reach the equation through connections); each shape is a distinct case by construction and is evaluated at up to 3 '
-             'leaf valuations; judged = (shape, valuation) pairs whose reference value is finite and well-conditioned and that were compared against compiled C and exec\'d Python',
+             'leaf valuations; the 73 depth-0/1 shapes (each operator alone) are also run one per model; judged = (shape, valuation) pairs whose reference value is finite and well-conditioned and that were compared against compiled C and exec\'d Python',
         assumptions=[
             'reference evaluator lib/mexpr.py written from the MathML/CellML specification (root = x^(1/degree), log base 10 by default, rem = fmod, relational/logical results are 1.0/0.0)',
             'valuations that hit a domain error, a non-finite or ill-conditioned (|value| > 1e9) intermediate are not used; a shape with no usable valuation is not judged',
